@@ -290,6 +290,9 @@ pub fn construct_class(core: &str) -> Option<&'static str> {
     #[derive(Default)]
     struct Found {
         tail: bool,
+        /// a tail call with something after it (a later term, a binding pattern, a later step,
+        /// a consequence) or inside a tuple/string: what follows is typed after a `never`
+        tail_nonfinal: bool,
         midchain: bool,
         bare_binder: bool,
         generic: bool,
@@ -304,16 +307,44 @@ pub fn construct_class(core: &str) -> Option<&'static str> {
             _ => false,
         }
     }
+    fn is_tail(t: &Term) -> bool {
+        matches!(t, Term::Access(a) | Term::Reference(a)
+            if matches!(a.source, Some(AccessSource::TailCall(_)) | Some(AccessSource::TailCallRipple)))
+    }
+    fn term_has_tail(t: &Term) -> bool {
+        match t {
+            _ if is_tail(t) => true,
+            Term::Block(e) => expr_has_tail(e),
+            Term::Tuple(tu) => tu.fields.iter().any(|fld| matches!(&fld.value, FieldValue::Chain(c) if chain_has_tail(c))),
+            Term::String(_, segs) => segs.iter().any(|s| matches!(s, StrSegment::Hole(e) if expr_has_tail(e))),
+            _ => false,
+        }
+    }
+    fn chain_has_tail(c: &Chain) -> bool {
+        c.terms.iter().any(term_has_tail)
+    }
+    fn seq_has_tail(s: &Sequence) -> bool {
+        s.chains.iter().any(chain_has_tail)
+    }
+    fn expr_has_tail(e: &Expression) -> bool {
+        e.branches.iter().any(|b| seq_has_tail(&b.condition) || b.consequence.as_ref().is_some_and(seq_has_tail))
+    }
     fn expr(e: &Expression, f: &mut Found) {
         for b in &e.branches {
             seq(&b.condition, f);
             if let Some(c) = &b.consequence {
+                if seq_has_tail(&b.condition) {
+                    f.tail_nonfinal = true;
+                }
                 seq(c, f);
             }
         }
     }
     fn seq(s: &Sequence, f: &mut Found) {
-        for c in &s.chains {
+        for (j, c) in s.chains.iter().enumerate() {
+            if j + 1 < s.chains.len() && chain_has_tail(c) {
+                f.tail_nonfinal = true;
+            }
             chain(c, f);
         }
     }
@@ -324,6 +355,11 @@ pub fn construct_class(core: &str) -> Option<&'static str> {
             f.bare_binder = true;
         }
         for (i, t) in c.terms.iter().enumerate() {
+            if term_has_tail(t)
+                && (i + 1 < c.terms.len() || c.match_pattern.is_some() || matches!(t, Term::Tuple(_) | Term::String(..)))
+            {
+                f.tail_nonfinal = true;
+            }
             match t {
                 Term::Match(m) => {
                     // the verdict of an in-chain match is consumed by a later term or by the
@@ -421,7 +457,14 @@ pub fn construct_class(core: &str) -> Option<&'static str> {
     // A program that merely *contains* such a construct is not thereby excused: the construct
     // must have been exercised. The reference interpreter tells (when it can evaluate the program
     // at all; otherwise the static answer stands).
-    let (res, events) = crate::refeval::evaluate_events(&src, 20_000);
+    let (res, mut events) = crate::refeval::evaluate_events(&src, 20_000);
+    // The open finding about tail calls has two halves: the argument is never checked against the
+    // target's parameter, and the call is typed `never`, so whatever follows it is mistyped. A
+    // tail call in proper tail position whose argument certainly is of the written parameter type
+    // ("tail-arg-ok") is an instance of neither; one with something after it is of the second.
+    if f.tail_nonfinal && events.contains("tail-arg-ok") {
+        events.insert("tail");
+    }
     let reference_ran = matches!(res, Ok(_) | Err(crate::refeval::Stop::Error(_)));
     for (class, ev) in statics {
         match ev {
